@@ -341,6 +341,7 @@ macro_rules! ss_impl {
 }
 ss_impl!(SsU16, u16);
 ss_impl!(SsU32, u32);
+ss_impl!(SsI32, i32); // a signed register type (the trait bounds allow it)
 
 /// the sketcher built by `Default` (hard-wired m = 4096 and the default parameters)
 pub fn ss_default_u16() -> SsU16 {
@@ -714,6 +715,7 @@ pub fn make(c: &Cfg) -> Box<dyn Sk> {
         "smh2_u32_xx" => Box::new(Smh2U32Xx::new(m)),
         "ss_u16" => Box::new(SsU16::new(c.ss.unwrap())),
         "ss_u32" => Box::new(SsU32::new(c.ss.unwrap())),
+        "ss_i32" => Box::new(SsI32::new(c.ss.unwrap())),
         "ss_def_u16" => Box::new(ss_default_u16()),
         "ss_def_u32" => Box::new(ss_default_u32()),
         "pmh2" => Box::new(Pmh2::new(m)),
